@@ -10,14 +10,14 @@ void harness(void)
     xv_ghost_havoc();
     xv_tpcore_havoc();
     struct xcm_socket *s; const char *addr;
-    long q0 = xv_seq, u0 = xv_upd_calls, p0 = xv_ctlp_calls, c0 = xv_ctlc_calls, e0 = xv_en_calls, l0 = xv_ctl_live;
     int rv = xcm_tp_socket_connect(s, addr);
-    if (rv == 0 && xv_upd_calls == u0 + 1 && xv_upd_seq == xv_seq && xv_op_seq < xv_upd_seq) XV_CANARY("success, auto_update: update is the last call");
-    if (rv == 0 && xv_upd_calls == u0) XV_CANARY("success, no auto_update (sub-socket): no update");
-    if (rv == -1 && xv_errno == ECONNREFUSED && xv_upd_calls == u0 && xv_seq == xv_op_seq) XV_CANARY("failure: errno is the transport's, nothing follows");
-    if (rv == -1 && xv_errno == EAGAIN) XV_CANARY("failure with EAGAIN is a failure too");
-    if (xv_ctlp_calls == p0 + 1 && xv_ctlp_seq < xv_op_seq) XV_CANARY("existing control interface polled before the operation");
-    if (rv == 0 && xv_ctlc_calls == c0 + 1 && xv_ctl_live == l0 + 1 && xv_upd_calls == u0 + 1 && xv_ctlc_seq < xv_upd_seq) XV_CANARY("control interface created, then update");
-    if (rv == 0 && xv_en_calls == e0 + 1) XV_CANARY("transport's own enable_ctl used");
-    if (rv == 0 && xv_seq == q0 + 1) XV_CANARY("success, nothing automatic");
+    (void)rv;
+    if (xv_op_rv == 0 && xv_g_auto_upd && xv_g_auto_ctl && !xv_g_own_en) XV_CANARY("success, everything automatic (top-level socket)");
+    if (xv_op_rv == 0 && xv_g_auto_upd && xv_g_auto_ctl && xv_g_own_en) XV_CANARY("success, transport with its own enable_ctl");
+    if (xv_op_rv == 0 && !xv_g_auto_upd && !xv_g_auto_ctl) XV_CANARY("success, nothing automatic (sub-socket)");
+    if (xv_op_rv == 0 && xv_g_auto_upd && !xv_g_auto_ctl) XV_CANARY("success, auto_update only");
+    if (xv_op_rv == -1 && xv_op_errno == ECONNREFUSED && xv_g_auto_upd && xv_g_auto_ctl) XV_CANARY("failure, top-level socket");
+    if (xv_op_rv == -1 && xv_op_errno == EAGAIN) XV_CANARY("failure with EAGAIN");
+    if (xv_g_ctl && !xv_g_auto_ctl) XV_CANARY("control interface already there");
+    if (xv_op_rv == 0 && xv_g_auto_ctl && !xv_g_own_en && xv_ctlc_ret == NULL) XV_CANARY("success, ctl_create fails silently");
 }
